@@ -570,6 +570,18 @@ func init() {
 								sizes = []ssa.Value{x.Reserve}
 							}
 							kind = "make(" + shortType(x.Type()) + ")"
+						case *ssa.Call:
+							f := calleeFunc(x)
+							if f == nil || f.Name() != "Grow" || f.Pkg() == nil {
+								continue
+							}
+							switch f.Pkg().Path() {
+							case "bytes", "strings", "slices", "bufio":
+							default:
+								continue
+							}
+							sizes = []ssa.Value{x.Call.Args[len(x.Call.Args)-1]}
+							kind = shortObj(f)
 						default:
 							continue
 						}
